@@ -357,6 +357,34 @@ def run_candidate(c):
                     if len(bad) >= 3:
                         break
             obs = {"programs_compared": n_cmp}
+        elif kind == "lsp_tokens_vs_text":
+            # every semantic-tokens answer of the session against the lexemes of the text the document has at that moment
+            import bounded
+            cur = {}
+            expect = []
+            for st in c["steps"]:
+                if "open" in st or "change" in st:
+                    uri, text, _ = st.get("open") or st.get("change")
+                    if isinstance(text, list):
+                        text = text[-1] if text else cur.get(uri, "")
+                    cur[uri] = text
+                else:
+                    expect.append(cur.get(st["tokens"], ""))
+            out = lsp_session(binp, c["steps"], d)
+            obs = {}
+            if any("server_exit" in o or "error" in o for o in out):
+                bad.append("the language server died: %s" % [o for o in out if "server_exit" in o or "error" in o])
+            else:
+                answers = [o for o in out if "tokens" in o]
+                if any(("publish" in o and o["publish"] is None) for o in out) or len(answers) != len(expect):
+                    obs["inconclusive"] = "timeout waiting for the server"
+                    obs["mismatches"] = []
+                    return False, obs
+                for k, (o, t) in enumerate(zip(answers, expect)):
+                    b = bounded.token_answer_mismatches(binp, t, o["tokens"], d)
+                    if b:
+                        bad.append("token request %d: %s" % (k, "; ".join(b)))
+                        break
         elif kind == "tokens_tile":
             import bounded
             text = list(c["files"].values())[0]
